@@ -658,6 +658,10 @@ class Poly2d:
         else:
             self._norm = lambda x, y: A * (x, y)
 
+    def __reduce__(self):
+        # ``_norm`` is a local closure and can not be pickled, it is rebuilt from (cc, A)
+        return (Poly2d, (self._cc, self._A))
+
     def __call__(self, x: Any, y: Any = None) -> Any:
         """
         Evaluate at points (x, y).
